@@ -375,6 +375,55 @@ pub fn gen_amo(r: &mut Rng, n: u32) -> (Universe, Prob) {
     (u, Prob { reqs, cons: vec![], soft: vec![] })
 }
 
+/// C11: wide fan-outs. The root has k requirements on distinct packages (some
+/// of them unions), first-level candidates again require several distinct
+/// packages, so many candidate requests are implied at once.
+pub fn gen_fanout(r: &mut Rng, feat: u32) -> (Universe, Prob) {
+    let k = r.range(2, 16) as u32;
+    let extra = r.range(0, 6) as u32;
+    let n_names = k + extra;
+    let mut u = Universe::default();
+    for n in 0..n_names {
+        let c = r.range(1, 2) as u32;
+        let mut p = Pkg::default();
+        for i in 0..c {
+            let id = u.sols.len() as u32;
+            u.sols.push(Sol { name: n, rank: i, deps: Some(Known { reqs: vec![], cons: vec![] }) });
+            p.cands.push(id);
+        }
+        if feat & F_HINTS != 0 && r.chance(1, 3) {
+            p.hint = Hint::All;
+        }
+        u.pkgs.push(p);
+        u.vss.push(Vs { name: n, matching: u.pkgs[n as usize].cands.clone() });
+    }
+    // nested fan-out: candidates of the first packages require a few of the extra packages
+    for s in 0..u.sols.len() {
+        let me = u.sols[s].name;
+        if me < k && extra > 0 && r.chance(1, 2) {
+            let mut reqs = vec![];
+            for _ in 0..r.range(1, 3) {
+                reqs.push(Req::Single(k + r.below(extra as u64) as u32));
+            }
+            let cons = if feat & F_CONSTRAINS != 0 && r.chance(1, 3) { vec![k + r.below(extra as u64) as u32] } else { vec![] };
+            u.sols[s].deps = Some(Known { reqs, cons });
+        }
+    }
+    let mut reqs = vec![];
+    let mut n = 0;
+    while n < k {
+        if feat & F_UNIONS != 0 && n + 1 < k && r.chance(1, 4) {
+            u.unions.push(vec![n, n + 1]);
+            reqs.push(Req::Union(u.unions.len() as u32 - 1));
+            n += 2;
+        } else {
+            reqs.push(Req::Single(n));
+            n += 1;
+        }
+    }
+    (u, Prob { reqs, cons: vec![], soft: vec![] })
+}
+
 pub fn gen_case(id: u64, seed: u64, class: &str, feat: u32) -> Case {
     let mut r = Rng::new(seed.wrapping_mul(0x100000001B3).wrapping_add(id));
     let (u, p) = match class {
@@ -382,6 +431,7 @@ pub fn gen_case(id: u64, seed: u64, class: &str, feat: u32) -> Case {
         "dense" => gen_universe(&mut r, feat, &DENSE),
         "greedy" => gen_greedy(&mut r, feat),
         "conflict" => gen_conflict(&mut r, feat),
+        "fanout" => gen_fanout(&mut r, feat),
         // for this class `feat` is the largest candidate count; sizes cycle 1..=feat
         "amo" => gen_amo(&mut r, 1 + (id % feat.max(1) as u64) as u32),
         other => panic!("unknown class {other}"),
